@@ -135,6 +135,10 @@ def describe_op(e):
         return '%s(%s,%s,%s)' % (a, e['i'], e['w'], e.get('cc') or e['c'])
     if a == 'sign':
         return 'sign(%s,%s,#%d,%s)' % (e['i'], e['w'], e['k'], e.get('cc') or e['c'])
+    if a == 'hold':
+        return 'hold(%s,%s,#%d)' % (e['i'], e['w'], e['k'])
+    if a == 'lock':
+        return 'lock(%s)' % e['i']
     if a == 'impks':
         return 'impks(%s,%s,exported@%d,%s)' % (e['i'], e['w'], e['k'], e.get('cc') or e['c'])
     if a == 'impmn':
@@ -169,11 +173,12 @@ def SIM(theme, num, depth, wrong=3, **ov):
 PLAN = {
     'quick': dict(
         gens=[EXH('fn', 2, sample=4), EXH('gate', 2, sample=4), EXH('fn', 3, sample=400), EXH('gate', 3, sample=400),
-              SIM('sim', 30, 16)],
+              EXH('hold', 2, sample=2), SIM('sim', 30, 16)],
         mc=[('Keystore_MC.cfg', {}, 'clean'), ('Keystore_MC_asfound.cfg', {}, 'Invariant GateOK is violated')]),
     'thorough': dict(
         # wrong=0: every class of wrong candidate at every "wrong" operation
         gens=[EXH('fn', 2), EXH('gate', 2, wrong=0), EXH('fn', 3, sample=40), EXH('gate', 3, sample=40, wrong=0),
+              EXH('hold', 2, wrong=0), EXH('hold', 3, sample=10, wrong=4),
               SIM('sim', 200, 20, wrong=5), SIM('sim', 60, 30, wrong=5, MaxAddr='5')],
         mc=[('Keystore_MC.cfg', {'MaxAddr': '2'}, 'clean'), ('Keystore_MC.cfg', {}, 'clean'),
                      ('Keystore_MC_asfound.cfg', {}, 'Invariant GateOK is violated')]),
